@@ -410,7 +410,8 @@ pub fn block(name: &str, c: &AlphaCtx, out: &mut Vec<Op>) {
                 out.push(Op::arg(OpK::ShrinkTo, (i64::MAX as u64) - j));
                 out.push(Op::arg(OpK::ShrinkTo, (i64::MAX as u64) + 1 + j));
             }
-            for h in 0..7 {
+            // (the too-small exact hints add a dozen fresh keys: not inside a fixed key universe)
+            for h in 0..(if c.universe > 0 { 4 } else { 7 }) {
                 out.push(Op::arg(OpK::ExtendHint, h));
             }
             // requests the allocator itself refuses (Err(AllocError)): far beyond RAM, below the layout limit
